@@ -126,8 +126,9 @@ def _eo(ctx, d):
         return
     e = ex[0]
     P = r.params
-    npos = mk("ite", A.at(e, "isinstance(labels, pd.DataFrame)", NP), A.at(e, "labels.sum().iloc[0]"), A.at(e, "sum(labels)"))
-    b = {"P": npos, "n": A.at(e, "len(labels)"), "x": d["grid"], "ym": A.at(e, "self._y_min")}
+    # `labels` is the routine's parameter (the construction may sit in an extracted helper, where the name is not in scope)
+    npos = mk("ite", A.entry(r, "isinstance(labels, pd.DataFrame)", NP), A.entry(r, "labels.sum().iloc[0]"), A.entry(r, "sum(labels)"))
+    b = {"P": npos, "n": A.entry(r, "len(labels)"), "x": d["grid"], "ym": A.at(e, "self._y_min")}
     b["N"] = A.spec("n - P", b)
     want = {"false_positives": "N * x", "true_negatives": "N * (1.0 - x)", "true_positives": "P * ym", "false_negatives": "P * (1.0 - ym)"}
     k = dict(e.data["kwargs"])
